@@ -367,35 +367,32 @@ class TypeChecker(walkers.dag.DagWalker):
     def walk_equals(
         self, expression: FNode, args: List["unified_planning.model.types.Type"]
     ) -> Optional["unified_planning.model.types.Type"]:
-        t = args[0]
-        if t is None:
+        if any(x is None for x in args):
             return None
-
-        if t.is_bool_type():
+        if any(x.is_bool_type() for x in args):
             raise UPTypeError(
                 "The expression '%s' is not well-formed."
                 "Equality operator is not supported for Boolean"
                 " terms. Use Iff instead." % str(expression)
             )
-        for x in args:
-            if x is None:
+        t, x = args
+        if t.is_user_type() or x.is_user_type():
+            # an object can only be compared with an object of a related type
+            if not (t.is_user_type() and x.is_user_type()):
                 return None
-            elif (
-                t.is_user_type()
-                and t != x
-                and not t.is_compatible(x)
-                and not x.is_compatible(t)
-            ):
+            if t != x and not t.is_compatible(x) and not x.is_compatible(t):
                 # check if t and x have at least one common ancestor
                 t = cast(_UserType, t)
-                if x.is_user_type():
-                    x = cast(_UserType, x)
-                    x_ancestors = set(x.ancestors)
-                    if all(t_ancestor not in x_ancestors for t_ancestor in t.ancestors):
-                        return None
-            elif (t.is_int_type() or t.is_real_type()) and not (
-                x.is_int_type() or x.is_real_type()
-            ):
+                x = cast(_UserType, x)
+                x_ancestors = set(x.ancestors)
+                if all(t_ancestor not in x_ancestors for t_ancestor in t.ancestors):
+                    return None
+        else:
+
+            def numeric(y):
+                return y.is_int_type() or y.is_real_type() or y.is_time_type()
+
+            if numeric(t) != numeric(x):
                 return None
         return BOOL
 
